@@ -351,7 +351,10 @@ int main(int argc, char** argv) {
 #ifdef VH_WITH_REF
   if (!refbind::init(A.datadir)) { fprintf(stderr, "reference model data missing\n"); return 2; }
 #endif
-  MENU = op_menu(T, PROP == "C07" || PROP == "C04" || PROP == "C19" || PROP == "C05");
+  // --menu quick|thorough selects the (setter, value) menu independently of the tier: the thorough tier runs the small
+  // menu as deep as the state budget allows (fixpoint when it fits) and the large menu to the depth the budget allows
+  const std::string menu_sel = A.get("menu", T ? "thorough" : "quick");
+  MENU = op_menu(menu_sel == "thorough", PROP == "C07" || PROP == "C04" || PROP == "C19" || PROP == "C05");
   if (PROP == "C10") {
     // host-changing part of the menu only
     std::vector<OpVal> m;
@@ -394,8 +397,16 @@ int main(int argc, char** argv) {
   int depth = 0;
   bool capped = false;
   std::vector<uint64_t> level_sizes;
+  // memory bound: a state holds two URL objects (+ the model record) and the next level is typically 3-8x the
+  // frontier; the search stops (cleanly, exhaustive:false, completed depth reported) before a level that would take
+  // the number of stored states above --maxstates (default 5M thorough: frontier + candidates stay below ~20 GB; the first thorough run of the grown
+  // menus took 59 GB and starved the machine)
+  const uint64_t maxstates = uint64_t(A.geti("maxstates", T ? 5000000 : 2000000));
+  double growth = 8.0;
+  bool mem_capped = false;
   while (!frontier.empty() && depth < maxdepth) {
     if (now_s() > deadline) { capped = true; break; }
+    if (double(states) + double(frontier.size()) * growth > double(maxstates) && depth >= 1) { capped = true; mem_capped = true; break; }
     depth++;
     std::vector<std::vector<Cand>> out(NT);
     std::vector<uint64_t> tcount(NT, 0);
@@ -482,6 +493,7 @@ int main(int argc, char** argv) {
     }
     states += nextf.size();
     level_sizes.push_back(nextf.size());
+    if (!frontier.empty()) growth = std::max(1.0, double(nextf.size()) / double(frontier.size())) * 1.15;
     fprintf(stderr, "[hist %s] depth %d: +%zu states (total %llu), transitions %llu, %.1fs\n", PROP.c_str(), depth, nextf.size(),
             (unsigned long long)states, (unsigned long long)transitions, now_s() - t0);
     frontier.swap(nextf);
@@ -491,15 +503,17 @@ int main(int argc, char** argv) {
   R.evaluations = transitions;
   R.nontrivial = transitions;
   R.exhaustive = !capped;
-  if (capped) R.note = "deadline reached at depth " + std::to_string(depth) + " (levels below are complete)";
+  if (capped) R.note = std::string(mem_capped ? "state budget (--maxstates) would be exceeded by the next level" : "deadline reached") + " after depth " + std::to_string(mem_capped ? depth : depth - 1) + " (all levels up to that depth are complete)";
   R.counters["states"] = states;
   R.counters["transitions"] = transitions;
   R.counters["traces_validated"] = transitions;
   std::map<std::string, std::string> extra;
-  extra["hist_depth_completed"] = std::to_string(capped ? depth - 1 : depth);
+  extra["hist_depth_completed"] = std::to_string(capped && !mem_capped ? depth - 1 : depth);
+  extra["hist_maxstates"] = std::to_string(maxstates);
   extra["hist_fixpoint"] = fixpoint ? "true" : "false";
   extra["hist_frontier_left"] = std::to_string(frontier.size());
   extra["hist_menu_size"] = std::to_string(MENU.size());
+  extra["hist_menu"] = jstr(menu_sel);
   extra["hist_initial"] = std::to_string(INITS.size());
   std::string ls = "[";
   for (size_t i = 0; i < level_sizes.size(); i++) ls += (i ? "," : "") + std::to_string(level_sizes[i]);
